@@ -284,6 +284,98 @@ func C03(c *core.Ctx) {
 		}
 	}
 
+	// ---- the signed member omits a field; an unsigned variant-spelled member supplies it ----
+	{
+		wm := mkWorld()
+		// TEE_TCB_SVN[1] = 1: a TDX module identity is required
+		f := world.DefaultQuoteFields(r)
+		f.TeeTcbSvn[1] = 1
+		wm, err = world.BuildWorld(r, baseTime, pki, f)
+		if err != nil {
+			panic(err)
+		}
+		full := wm.TcbInfo.JSON()
+		var members map[string]json.RawMessage
+		_ = json.Unmarshal(full, &members)
+		for _, omit := range []string{"tdxModuleIdentities", "tcbLevels", "tdxModule", "fmspc", "pceId", "id", "version", "nextUpdate"} {
+			omit := omit
+			// signed member without the field (re-signed by the genuine signer)
+			var keys []string
+			for _, k := range []string{"id", "version", "issueDate", "nextUpdate", "fmspc", "pceId", "tcbType", "tcbEvaluationDataNumber", "tdxModule", "tdxModuleIdentities", "tcbLevels"} {
+				if k != omit {
+					if _, ok := members[k]; ok {
+						keys = append(keys, k)
+					}
+				}
+			}
+			var sb strings.Builder
+			sb.WriteString("{")
+			for i, k := range keys {
+				if i > 0 {
+					sb.WriteString(",")
+				}
+				sb.WriteString(`"` + k + `":` + string(members[k]))
+			}
+			sb.WriteString("}")
+			signed := []byte(sb.String())
+			sig := world.SignMember(r, pki.TcbSigner.Key, signed)
+			body := world.Envelope("tcbInfo", signed, sig)
+			supply := []byte(`{"` + omit + `":` + string(members[omit]) + `}`)
+			try(wm, "omitted-field", "control: signed tcbInfo lacks "+omit, func(resp map[string]world.Resp, t, _ string) {
+				setBody(t, body)(resp, "", "")
+			}, false)
+			for _, key := range []string{"TCBINFO", "Tcbinfo", "tcbinfo"} {
+				for _, before := range []bool{true, false} {
+					key, before := key, before
+					try(wm, "omitted-field", fmt.Sprintf("signed tcbInfo lacks %s; unsigned %q supplies it (before=%v)", omit, key, before), func(resp map[string]world.Resp, t, _ string) {
+						setBody(t, inject(body, key, supply, before))(resp, "", "")
+					}, false)
+				}
+			}
+		}
+		// the same for the QE identity level list
+		qfull := wm.QeIdentity.JSON()
+		var qmembers map[string]json.RawMessage
+		_ = json.Unmarshal(qfull, &qmembers)
+		for _, omit := range []string{"tcbLevels", "mrsigner", "id", "version", "nextUpdate", "miscselectMask"} {
+			omit := omit
+			var sb strings.Builder
+			sb.WriteString("{")
+			first := true
+			for _, k := range []string{"id", "version", "issueDate", "nextUpdate", "tcbEvaluationDataNumber", "miscselect", "miscselectMask", "attributes", "attributesMask", "mrsigner", "isvprodid", "tcbLevels"} {
+				if v, ok := qmembers[k]; ok && k != omit {
+					if !first {
+						sb.WriteString(",")
+					}
+					first = false
+					sb.WriteString(`"` + k + `":` + string(v))
+				}
+			}
+			sb.WriteString("}")
+			signed := []byte(sb.String())
+			body := world.Envelope("enclaveIdentity", signed, world.SignMember(r, pki.TcbSigner.Key, signed))
+			supply := []byte(`{"` + omit + `":` + string(qmembers[omit]) + `}`)
+			for _, key := range []string{"ENCLAVEIDENTITY", "enclaveidentity"} {
+				for _, before := range []bool{true, false} {
+					key, before := key, before
+					try(wm, "omitted-field", fmt.Sprintf("signed enclaveIdentity lacks %s; unsigned %q supplies it (before=%v)", omit, key, before), func(resp map[string]world.Resp, _, q string) {
+						setBody(q, inject(body, key, supply, before))(resp, "", "")
+					}, false)
+				}
+			}
+		}
+	}
+	// ---- signers of every other role, each genuinely issued by the trusted root ----
+	for _, cn := range []string{"Intel SGX PCK Processor CA", "Intel SGX PCK Platform CA", "Intel SGX PCK Certificate", "Intel SGX Root CA", "Intel SGX TCB Signing ", "Intel SGX TCB signing", "Intel SGX TCB Signing CA"} {
+		for _, ca := range []bool{true, false} {
+			spec := world.CertSpec{CN: cn, NotBefore: baseTime.AddDate(-1, 0, 0), NotAfter: baseTime.AddDate(1, 0, 0), IsCA: ca, CRLDP: []string{pki.Opts.RootCRLURL}}
+			signer, err := world.MakeCert(r, spec, world.NewKey(r), pki.Root)
+			if err != nil {
+				panic(err)
+			}
+			resign(fmt.Sprintf("signed by a root-issued certificate named %q (CA=%v)", cn, ca), signer, signer, pki.Root, false)
+		}
+	}
 	// ---- wrong id / version / levels / missing members ----
 	docMut := func(desc string, f func(w2 *world.World), want bool) {
 		w2 := mkWorld()
